@@ -5,6 +5,7 @@ Prints one line per check that does not exit 0, with the rules reporting.  Exit 
 import argparse
 import json
 import shutil
+import os
 import subprocess
 import sys
 import tempfile
@@ -13,7 +14,8 @@ PY = "/venv/bin/python"
 
 
 def sh(cmd, cwd=None):
-    r = subprocess.run(cmd, shell=True, cwd=cwd, capture_output=True, text=True, timeout=900)
+    env = dict(os.environ, XOVERIF_JOBS=os.environ.get("XOVERIF_JOBS", "2"))  # many checks run side by side: small worker pools
+    r = subprocess.run(cmd, shell=True, cwd=cwd, capture_output=True, text=True, timeout=1800, env=env)
     return r.returncode, r.stdout + r.stderr
 
 
